@@ -177,7 +177,7 @@ func main() {
 	}
 	nAx, nAssign := axiomListing(r)
 
-	cfg := drive.Config{Prop: "C02", Families: []string{"seeds", "axioms", "facts", "loops", "ptr", "calls", "refine", "coro", "io"},
+	cfg := drive.Config{Prop: "C02", Families: []string{"seeds", "axioms", "facts", "loops", "ptr", "calls", "refine", "coro", "io", "iterate"},
 		MaxExec: 6000, MaxStates: 4096, MaxTuples: 2048}
 	if r.Thorough() {
 		cfg.MaxExec, cfg.MaxTuples = 20000, 4096
